@@ -59,6 +59,21 @@ for res in sorted(glob.glob("/tmp/mutlane*/results/*.json"), key=lambda x: os.pa
     })
     json.dump(meta, open(f"{d}/meta.json", "w"), indent=1, ensure_ascii=False)
     rows.append((f"{pid}-{v}", meta.get("title", ""), meta.get("needs_to_manifest", ""), "obsolete" if obsolete else (demo_ok and suite_ok), caught, r["check_signatures"]))
+# seeds saved by earlier sessions (their lane results are gone): rows from their stored meta.json
+done = {r[0] for r in rows}
+for d in sorted(glob.glob(f"{OUT}/C??-*")):
+    sid = os.path.basename(d)
+    if sid in done or "-own" in sid or not os.path.exists(f"{d}/meta.json"):
+        continue
+    m = json.load(open(f"{d}/meta.json"))
+    c = m.get("confirmed_by_coordinator", {})
+    if c.get("no_longer_applies") or c.get("no_longer_manifests"):
+        st = "obsolete"
+    else:
+        st = bool(c.get("demonstration_confirmed")) and bool(c.get("existing_suite_passes"))
+    cr = m.get("check_result", {})
+    rows.append((sid, m.get("title", ""), m.get("needs_to_manifest", ""), st, cr.get("caught", False), cr.get("signatures", [])))
+rows.sort(key=lambda r: r[0])
 # own mutants (hand-written during development) keep their directories: list them too
 for d in sorted(glob.glob(f"{OUT}/*-own-*")):
     m = json.load(open(f"{d}/meta.json"))
